@@ -21,6 +21,8 @@ pub const COUNT: u64 = 7; // terminal
 pub const LAST: u64 = 8; // terminal
 pub const FOLD: u64 = 9; // terminal
 pub const NEXT_AFTER_END: u64 = 10;
+pub const MIN: u64 = 11; // terminal, by value, only for iterators documented as increasing
+pub const MAX: u64 = 12; // terminal, by value
 
 pub fn kind_name(k: u64) -> &'static str {
     match k {
@@ -35,6 +37,8 @@ pub fn kind_name(k: u64) -> &'static str {
         LAST => "last",
         FOLD => "fold",
         NEXT_AFTER_END => "next-after-end",
+        MIN => "min",
+        MAX => "max",
         _ => "?",
     }
 }
@@ -60,7 +64,15 @@ fn usz(k: u64) -> usize {
 
 /// Run `script` on a concrete iterator of tables.
 pub fn run_script<T: Tbl, I: Iterator<Item = T>>(it: I, script: &[(u64, u64)], expect: Option<&Expect>) -> Vec<Obs> {
-    run_script_any(it, script, &|t: &T| t.t_blocks().to_vec(), Some(&|a: &T, b: &T| a.cmp(b)), expect)
+    run_script_any(
+        it,
+        script,
+        &|t: &T| t.t_blocks().to_vec(),
+        Some(&|a: &T, b: &T| a.cmp(b)),
+        expect,
+        // `Iterator::min` / `Iterator::max` themselves (an override of them is only reached this way)
+        Some(&|it: I, is_min: bool| if is_min { it.min() } else { it.max() }),
+    )
 }
 
 /// What the model expects of a script: the observations, and for every step whether the sequence is already
@@ -97,6 +109,7 @@ pub fn run_script_any<T, I: Iterator<Item = T>>(
     key: &dyn Fn(&T) -> Vec<u64>,
     cmp: Option<&dyn Fn(&T, &T) -> std::cmp::Ordering>,
     expect: Option<&Expect>,
+    by_value_minmax: Option<&dyn Fn(I, bool) -> Option<T>>,
 ) -> Vec<Obs> {
     use std::cmp::Ordering;
     let mut slot = Some(it);
@@ -126,7 +139,7 @@ pub fn run_script_any<T, I: Iterator<Item = T>>(
                     out.push(Obs::Item(Some(key(&x))));
                     break;
                 }
-                if !e.terminal_on_exhausted && matches!(kind, COUNT | LAST | FOLD) {
+                if !e.terminal_on_exhausted && matches!(kind, COUNT | LAST | FOLD | MIN | MAX) {
                     if let Some(w) = e.obs.get(step) {
                         out.push(w.clone());
                     }
@@ -177,6 +190,12 @@ pub fn run_script_any<T, I: Iterator<Item = T>>(
                 let it = slot.take().unwrap();
                 let (c, x) = it.fold((0u128, 0u64), |(c, x), t| (c + 1, x ^ key(&t)[0]));
                 out.push(Obs::Fold(c, x));
+            }
+            MIN | MAX => {
+                // Iterator::min_by / max_by by value with the items' own order (only generated when one is given)
+                let it = slot.take().unwrap();
+                let f = by_value_minmax.expect("harness: min/max on an unordered iterator");
+                out.push(Obs::Item(f(it, kind == MIN).map(|t| key(&t))));
             }
             _ => panic!("harness: unknown iterator script step {}", kind),
         }
@@ -417,8 +436,12 @@ pub fn model_script_at<P: Position>(mut p: P, script: &[(u64, u64)]) -> Vec<Obs>
                 out.push(Obs::Num(p.remaining().expect("harness: count on an unbounded remainder")));
                 consumed = true;
             }
-            LAST => {
+            LAST | MAX => {
                 out.push(Obs::Item(if p.cur().is_none() { None } else { Some(p.last_item()) }));
+                consumed = true;
+            }
+            MIN => {
+                out.push(Obs::Item(p.cur()));
                 consumed = true;
             }
             FOLD => {
@@ -594,19 +617,19 @@ fn gen_arg<P: Position>(total_small: Option<u128>, p: &P, huge_ok: bool, rng: &m
 /// A script for `start` whose cost with default (stepping) implementations stays below `MAX_DEFAULT_COST`.
 pub fn gen_script(n: usize, start: &[u64], rng: &mut crate::rng::Rng) -> Vec<(u64, u64)> {
     let total_small: Option<u128> = if n <= 5 { Some(1u128 << (1u32 << n)) } else { None };
-    gen_script_at(&Pos::new(n, start), total_small, rng)
+    gen_script_at(&Pos::new(n, start), total_small, true, rng)
 }
 
 /// The same for any modelled position (`total_small`: the length of the whole sequence when it fits 64 bits).
-pub fn gen_script_at<P: Position>(p0: &P, total_small: Option<u128>, rng: &mut crate::rng::Rng) -> Vec<(u64, u64)> {
+pub fn gen_script_at<P: Position>(p0: &P, total_small: Option<u128>, ordered: bool, rng: &mut crate::rng::Rng) -> Vec<(u64, u64)> {
     for _ in 0..30 {
         let mut p = p0.clone();
         let mut s: Vec<(u64, u64)> = Vec::new();
         let steps = 1 + rng.below(5);
         let mut terminal = false;
         for _ in 0..steps {
-            let kind = [NEXT, NTH, NTH, SIZE_HINT, SKIP_NEXT, SKIP_NEXT, STEP_BY3, STEP_BY3, TAKE_COUNT, TAKE_MINMAX, COUNT, LAST, FOLD]
-                [rng.below(13)];
+            let kind = [NEXT, NTH, NTH, SIZE_HINT, SKIP_NEXT, SKIP_NEXT, STEP_BY3, STEP_BY3, TAKE_COUNT, TAKE_MINMAX, COUNT, LAST, FOLD, MIN, MAX]
+                [rng.below(if ordered { 15 } else { 13 })];
             let arg = match kind {
                 NTH | SKIP_NEXT | TAKE_COUNT => gen_arg(total_small, &p, true, rng),
                 STEP_BY3 => std::cmp::max(1, gen_arg(total_small, &p, true, rng)),
@@ -682,7 +705,7 @@ pub fn check_seq_script<T, I: Iterator<Item = T>>(
         }
     }
     let expect = expect_at(SeqPos { list: &reference, idx: 0 }, script);
-    let got = run_script_any(mk(), script, key, None, Some(&expect));
+    let got = run_script_any(mk(), script, key, None, Some(&expect), None);
     match first_disagreement(&got, &expect.obs) {
         None => Ok(got.len()),
         Some(d) => Err(d),
@@ -700,7 +723,7 @@ pub fn gen_seq_script(len: usize, rng: &mut crate::rng::Rng) -> Vec<(u64, u64)> 
     }
     let mut p = SeqPos { list: &list, idx: 0 };
     p.advance(s.len() as u128);
-    s.extend(gen_script_at(&p, Some(len as u128), rng));
+    s.extend(gen_script_at(&p, Some(len as u128), false, rng));
     s
 }
 
